@@ -46,6 +46,9 @@ type inProgressResponseStatus struct {
 	state          graphsync.RequestState
 	startTime      time.Time
 	responseStream responseassembler.ResponseStream
+	// networkError is set once sending to the peer failed for this response:
+	// its response stream is closed and nothing queued afterwards will go out
+	networkError bool
 }
 
 // RequestHooks is an interface for processing request hooks
